@@ -160,7 +160,7 @@ inductive Plan where
   | addr (a : Addr)
   /-- the four nested loops over the octet lists (nmap.py:85-89) -/
   | octets (ws xs ys zs : List Nat)
-deriving Repr
+deriving DecidableEq, Repr
 
 /-- everything `_parse_nmap_target_spec(target_spec)` executes before its first `yield`:
     nmap.py:70-77 ('/' branch: split, `int(prefix)`, range guard, `IPNetwork(...)`, version
